@@ -235,6 +235,20 @@ def nsattrF (c : List Level) (nss : List NS) : Nat → Nat → Name → Option V
         | some p => nsattrF c nss f p x
         | none => none
 
+/-- an `_NSAttr` object: it keeps a *reference* to the namespace it was created for (`self.__parent = parent`),
+not a copy of the chain -/
+structure NSAttr where
+  parent : Nat
+  deriving DecidableEq, Repr
+
+/-- `Namespace.attr` (a memoized property): the object is created at the first access and kept -/
+def nsAttrObj (ns : Nat) : NSAttr := ⟨ns⟩
+
+/-- `_NSAttr.__getattr__(key)`: walks `.inherits` from the parent on the heap *as it is when the attribute is
+read* -/
+def NSAttr.read (c : List Level) (h : Heap) (o : NSAttr) (x : Name) : Option Val :=
+  nsattrF c h.nss h.nss.length o.parent x
+
 def Ctx.get (c : Ctx) : Ref → Option Nat
   | .self => c.self
   | .next => c.next
@@ -252,7 +266,7 @@ structure Dispatch where
 def heapDispatch (c : List Level) (h : Heap) : Dispatch where
   ref cx r := (h.ctxs[cx]?).bind (·.get r)
   getattr ns x := getattr c h ns x
-  attr ns x := nsattrF c h.nss h.nss.length ns x
+  attr ns x := (nsAttrObj ns).read c h x        -- `ns.attr.x`
 
 /-! ## argument binding (what Python does for `render_x(context, *pos, **kw)`) -/
 
